@@ -89,7 +89,14 @@ Inductive case :=
      cmp_args = ARGS_POST is modelled for this case *)
   | CB (access force : bool) (depth : nat) (hs : list kv) (ctl : option bytes) (body : bytes)
        (jt : option json) (canon : bool) (ext_err : bool) (cmp_args : bool)
-       (o_post : list kv) (o_post_names : option (list kv)) (o_body o_len o_rbp : bytes) (o_err : bool).
+       (o_post : list kv) (o_post_names : option (list kv)) (o_body o_len o_rbp : bytes) (o_err : bool)
+  (* the body delivered in chunks (api 0 = WriteRequestBody, 1 = ReadRequestBodyFrom with Len,
+     2 = ReadRequestBodyFrom without) under SecRequestBodyLimit / SecRequestBodyLimitAction;
+     observed ARGS_POST, REQUEST_BODY, REQBODY_PROCESSOR, REQBODY_ERROR, INBOUND_DATA_ERROR,
+     interruption *)
+  | CS (limit : nat) (reject : bool) (hs : list kv) (ctl : option bytes) (chunks : list (nat * bytes))
+       (jt : option json) (ext_err : bool) (cmp_args : bool)
+       (o_post : list kv) (o_body o_rbp : bytes) (o_err o_inbound o_interrupted : bool).
 
 Definition cookie_ord (raw : bytes) : gmap := parse_cookies raw.
 
@@ -145,6 +152,21 @@ Definition ok (c : case) : bool :=
        else true) &&
       bytes_eqb (v_request_body t) o_body && bytes_eqb (v_request_body_length t) o_len &&
       bytes_eqb (v_rbp t) o_rbp && Bool.eqb (v_reqbody_error t) o_err) (json_orders res)
+  | CS limit reject hs ctl chunks jt ext_err cmp_args o_post o_body o_rbp o_err o_inbound o_interrupted =>
+    let t0 := fold_left (fun t h => add_request_header lower_ascii cookie_ord t (fst h) (snd h)) hs txv_empty in
+    let t1 := match ctl with Some p => set_rbp t0 (upper_ascii p) | None => t0 end in
+    let cfg := mk_bcfg true false 1024 in
+    let res := match jt with Some tree => json_res (fst (read_json tree 1024)) | None => [] end in
+    let cs := map (fun c => (match fst c with O => ViaWrite | S O => ViaReadLen | _ => ViaReadNoLen end, snd c)) chunks in
+    existsb (fun ord =>
+      let process := fun buf t =>
+        process_request_body lower_ascii cfg (mk_borc (parse_query buf 38) jt (fun _ => ord) ext_err) t buf in
+      let s := body_stream limit reject process cs t1 in
+      let t := bs_tx s in
+      (if cmp_args then ms_eqb (cm_find_all (v_args_post t)) o_post else true) &&
+      bytes_eqb (v_request_body t) o_body && bytes_eqb (v_rbp t) o_rbp &&
+      Bool.eqb (v_reqbody_error t) o_err && Bool.eqb (bs_inbound s) o_inbound &&
+      Bool.eqb (bs_interrupted s) o_interrupted) (json_orders res)
   end.
 
 Definition mismatches (l : list case) : list nat := mismatches_of ok l.
